@@ -72,6 +72,7 @@ type wireMsg struct {
 func checkC19W(cc any) *ev.Verdict {
 	c := cc.(*C19WCase)
 	v := &ev.Verdict{}
+	transportTexts(c.Ops)
 	cli := os.Getenv("VERIF_CLI")
 	if cli == "" {
 		v.HarnessError = "VERIF_CLI is not set (the driver builds the binary)"
